@@ -7,7 +7,7 @@ NOT_APPLICABLE = {
     'C14': 'quantifies over rayon thread schedules; Kani has no threads and Verus cannot see rayon; the reachable fragment (commutativity/associativity of vector addition) is decided under C13 (DESIGN.md §5)',
     'C15': 'statement about exact probability laws over all random tapes; neither verifier has a probabilistic logic and the num-bigint/num-rational arithmetic would be all assumed contracts (DESIGN.md §5)',
 }
-for _p in ['C01', 'C02', 'C03', 'C04', 'C05', 'C06', 'C10', 'C11', 'C12', 'C16', 'C17', 'C18', 'C19', 'C20']:
+for _p in ['C01', 'C03', 'C04', 'C06', 'C10', 'C11', 'C12', 'C17']:
     NOT_APPLICABLE[_p] = _PENDING
 
 TEXT = {
@@ -39,5 +39,41 @@ TEXT = {
         'note': 'Bitvec- and Field255-touching decoders are out of reach (DESIGN.md R3).',
         'technique': 'verifier-generated safety obligations of the decoder bodies (Kani/CBMC) under symbolic input bytes',
         'design_ref': 'DESIGN.md §4 C08',
+    },
+    'C16': {
+        'text': 'Partial. Contracts "Ok exactly on the documented domain, Err otherwise, never panic/overflow, and a returned instance is usable" are proved by Verus (unbounded) for Histogram::new, Prio2::new, check_num_aggregators and the length accessors of Histogram/SumVec/MultihotCountVec/Sum, and by Kani (full-domain scalars) for Prio3::new, role_try_from, random_size and the wrong-length / wrong-count guards of shard_with_random and verifier_shares_to_message. Two defects found this way were repaired (Histogram out-of-range bucket, Prio2::new overflow, u8 share counter).',
+        'note': 'Not covered: DP constructors, Poplar1 operations (bitvec), FLP prove/query length guards. Known finding: chunk lengths near usize::MAX are accepted by Histogram/SumVec/MultihotCountVec::new although their length accessors then overflow.',
+        'technique': 'constructor/accessor contracts on extracted real code (Verus) + guard contracts on real generic code over a nondeterministic Type (Kani)',
+        'design_ref': 'DESIGN.md §4 C16',
+    },
+    'C05': {
+        'text': 'Partial: length exactness only. Verus proves, for all parameters, that the declared proof/verifier/randomness lengths of Histogram, SumVec, MultihotCountVec and Sum equal what prove/query construct (arity + gadget_poly_len(degree, wire_poly_len(calls)), 1 + sum(arity+1), sum of arities), using the real helper functions of flp.rs.',
+        'note': 'Completeness, soundness, share-linearity and root-of-unity refusal are polynomial-identity statements over NTT/Lagrange code: not decided by this family here (DESIGN.md §4 C05/C10).',
+        'technique': 'postconditions on extracted length accessors against spec functions (Verus)',
+        'design_ref': 'DESIGN.md §4 C05',
+    },
+    'C18': {
+        'text': 'Partial: transcript binding. The real generic Prio3 derivation functions are instantiated with a recording XOF; Kani proves for all keys/contexts(<=2 bytes)/nonces/ids that each derivation absorbs exactly the specified (seed, tag||ctx, binder) transcript, so a derivation that ignores ctx, nonce, aggregator id, num_proofs, algorithm id or a joint-randomness part fails a named obligation.',
+        'note': 'Rejection under mismatch follows from the transcripts only under the random-oracle assumption on the XOF. Inline derivations of shard_with_random/verify_init and Poplar1/IDPF bindings are not decided (CBMC cost, bitvec).',
+        'technique': 'ghost transcript (recording Xof implementation) + postconditions on the real derive_* functions (Kani)',
+        'design_ref': 'DESIGN.md §4 C18',
+    },
+    'C02': {
+        'text': 'Partial: deterministic rejection guards. Kani proves on the real Prio3 aggregator code, for every Type meeting the Type contract, the checks the soundness argument relies on (share count and length, every proof decided, seed recomputed from all parts, full-seed comparison, no output share on mismatch).',
+        'note': 'The soundness error of the proof system is probabilistic and not decided; validity-circuit algebra is not covered.',
+        'technique': 'guard contracts on real generic code over a nondeterministic Type implementation (Kani)',
+        'design_ref': 'DESIGN.md §4 C02',
+    },
+    'C19': {
+        'text': 'Partial: Prio2 parameter and packing arithmetic. Verus proves Prio2::new (exact acceptance domain, no overflow), proof_length and the single-use rule; FieldPrio2 arithmetic is covered by C09.',
+        'note': 'Acceptance/rejection of vectors (soundness), query-point exclusion and codecs are not decided.',
+        'technique': 'function contracts on extracted real code (Verus)',
+        'design_ref': 'DESIGN.md §4 C19',
+    },
+    'C20': {
+        'text': 'Partial: the single-use rule of Prio3 and Prio2 is proved for all histories (Verus).',
+        'note': 'The Poplar1 rule and prefix-list validation operate on bitvec values and are not decided by this family here.',
+        'technique': 'function contracts on extracted real code (Verus)',
+        'design_ref': 'DESIGN.md §4 C20',
     },
 }
